@@ -2,7 +2,7 @@
 # usage: seed_recheck.sh <seed-name> [tier]   e.g. seed_recheck.sh C13-1
 # applies /verif/seeded/<name>/patch.diff to /repo, runs ./check <Cxx>, undoes it, updates meta.json
 name=$1; tier=${2:-quick}; pid=${name%%-*}
-cd /repo && git apply --3way /verif/seeded/$name/patch.diff 2>/dev/null || git apply /verif/seeded/$name/patch.diff || { echo "$name: patch does not apply"; exit 2; }
+cd /repo && git apply --3way /verif/seeded/$name/patch.diff 2>/dev/null || { git -C /repo reset -q; git -C /repo checkout -q -- .; git apply /verif/seeded/$name/patch.diff; } || { git -C /repo reset -q; git -C /repo checkout -q -- .; echo "$name: patch does not apply"; exit 2; }
 git -C /repo reset -q
 cd /verif && timeout 1800 ./check $pid --tier $tier 2>&1 | grep "VIOLATION\|tier=" | head -4 > /tmp/seed_rc_$$.txt
 cd /repo && git checkout -q -- .
